@@ -249,7 +249,9 @@ ScalarOf(c, h, nd, fn) ==
 \* text, would call).  "alias": a module name that cannot be imported as written but that the interpreter's own
 \* compatibility tables (pickle's fix_imports) translate to an importable, not yet imported standard module: for the
 \* code it is a missing module
-Imported == {"res", "rescls", "noattr", "lazy", "builtin", "iter", "subunimp", "pct", "trap"}
+\* "mapobj": an existing MAPPING instance (os.environ, a registry): iterating / indexing it is calling it; "unhash": an
+\* existing unhashable object: as a mapping key it is rejected by its type alone, no code of the object runs
+Imported == {"res", "rescls", "noattr", "lazy", "builtin", "iter", "subunimp", "pct", "trap", "mapobj", "unhash"}
 NoModule == {"missing", "alias"}
 FindName(n, unsafe) ==
   IF n = "e" THEN Err({})
@@ -258,9 +260,9 @@ FindName(n, unsafe) ==
        ELSE IF n \notin Imported /\ ~unsafe THEN Err({})
        ELSE IF n \in {"noattr", "pct"} THEN Err(ie \cup {"modgetattr"})
        ELSE IF n = "subunimp" THEN Err(ie)              \* hasattr(package, 'plugin') is false: nothing is imported
-       ELSE Ok({"attr"}, "attr", ie \cup {"getattr"} \cup (IF n = "lazy" THEN {"modgetattr"} ELSE {}))
+       ELSE Ok({"attr"}, IF n = "unhash" THEN "unhashattr" ELSE "attr", ie \cup {"getattr"} \cup (IF n = "lazy" THEN {"modgetattr"} ELSE {}))
 
-Unhashable == {"list", "dict", "set"}
+Unhashable == {"list", "dict", "set", "unhashattr"}
 
 RECURSIVE Con(_, _, _), ConMapping(_, _, _), FlatEntries(_, _, _), ConPairs(_, _, _)
 \* flatten_mapping retags a key node tagged '=' as a string IN PLACE (constructor.py:206-208): every later use of that
@@ -393,7 +395,9 @@ SeqsUpTo(Sx, n) == UNION {[1 .. m -> Sx] : m \in 0 .. n}
 HasNodeKid(nd) == RefsOfNode(nd) # {}
 \* every node but the last must be referenced by the node built right after it or stay a top node; to keep the space a
 \* set of *documents* and not of permutations, a new node must refer to the previous one when it refers to any
-ChainOk(i, nd) == LET ks == {r.id : r \in RefsOfNode(nd)} IN (ks = {} /\ (i = 1 \/ ~MustChain)) \/ (i - 1) \in ks
+\* (written with IF, not with \/: TLC splits a disjunction inside an action into sub-actions and would generate the same
+\* successor once per true disjunct, evaluating req' and lval' each time)
+ChainOk(i, nd) == LET ks == {r.id : r \in RefsOfNode(nd)} IN IF ks = {} THEN (IF i = 1 THEN TRUE ELSE ~MustChain) ELSE (i - 1) \in ks
 
 AddNode ==
   /\ Len(nodes) < MaxNodes
@@ -405,7 +409,7 @@ AddNode ==
          \E v \in (IF k = "s" THEN Vals ELSE {"g"}) :
            LET proto == [k |-> k, t |-> [b |-> "str", n |-> "-"], v |-> v, e |-> e, fl |-> FALSE] IN
            /\ ChainOk(i, proto)
-           /\ (HasNodeKid(proto) \/ k \in LeafKinds)
+           /\ (IF HasNodeKid(proto) THEN TRUE ELSE k \in LeafKinds)
            /\ \E t \in TagsOver(IF HasNodeKid(proto) THEN ParentBases ELSE LeafBases) :
                 nodes' = Append(nodes, [proto EXCEPT !.t = t])
   /\ top' = TopOf(nodes')
